@@ -13,19 +13,19 @@ Open Scope Z_scope.
 
 Inductive key := Kdescription | Kprojection | Kshape | Kheight | Kwidth | Karea_extent | Klower_left_xy
                | Kupper_right_xy | Kunits | Kcenter | Kradius | Kresolution | Kupper_left_extent
-               | Kx | Ky | Kdx | Kdy | Karea_id | Kother.
+               | Kx | Ky | Kdx | Kdy | Karea_id | Kproj_id | Kother.
 Definition key_eqb (a b : key) : bool :=
   match a, b with
   | Kdescription, Kdescription | Kprojection, Kprojection | Kshape, Kshape | Kheight, Kheight | Kwidth, Kwidth
   | Karea_extent, Karea_extent | Klower_left_xy, Klower_left_xy | Kupper_right_xy, Kupper_right_xy | Kunits, Kunits
   | Kcenter, Kcenter | Kradius, Kradius | Kresolution, Kresolution | Kupper_left_extent, Kupper_left_extent
-  | Kx, Kx | Ky, Ky | Kdx, Kdx | Kdy, Kdy | Karea_id, Karea_id | Kother, Kother => true
+  | Kx, Kx | Ky, Ky | Kdx, Kdx | Kdy, Kdy | Karea_id, Karea_id | Kproj_id, Kproj_id | Kother, Kother => true
   | _, _ => false
   end.
 Definition utok_eqb (a b : utok) : bool :=
   match a, b with
   | UTdeg, UTdeg | UTdegrees, UTdegrees | UTm, UTm | UTmeters, UTmeters | UTmetres, UTmetres | UTkm, UTkm
-  | UTbaddeg, UTbaddeg => true
+  | UTbaddeg, UTbaddeg | UTcrs, UTcrs => true
   | _, _ => false
   end.
 
@@ -168,9 +168,10 @@ Section Yaml.
 
   (* pyproj's answers about the CRS parsed from a projection entry:
      (is_geographic, _get_proj_units, unit factor) *)
-  Variable crs_facts : pentry -> bool * cu * (cu -> T).
+  Variable crs_facts : pentry -> bool * cu * (cu -> T * T).
 
-  Record loaded := mk_loaded { l_id : Z; l_desc : Z; l_proj : pentry; l_out : outcome T }.
+  (* l_projid: the proj_id keyword handed to create_area_def, None when the file has no proj_id entry *)
+  Record loaded := mk_loaded { l_id : Z; l_desc : Z; l_projid : option Z; l_proj : pentry; l_out : outcome T }.
 
   (* _create_area_def_from_dict *)
   Definition load_one (e : yentry) : res loaded :=
@@ -184,6 +185,9 @@ Section Yaml.
     do radius <- capture_subarguments params Kradius [Kradius; Kdx; Kdy; Kunits];
     do description <- (match dget params Kdescription with
                        | None => Ok area_id | Some (YStr s) => Ok s | Some _ => Err end);
+    (* `if "proj_id" in params`: presence decides, the empty string is a value like any other *)
+    do proj_id <- (match dget params Kproj_id with
+                   | None => Ok None | Some (YStr s) => Ok (Some s) | Some _ => Err end);
     do projection <- (match dget params Kprojection with Some (YProj p) => Ok p | _ => Err (* KeyError *) end);
     do shape <- as_pair false shape;
     do ul <- as_pair false ul; do center <- as_pair false center;
@@ -194,7 +198,7 @@ Section Yaml.
                 a_shape := match shape with Some (h, w, _) => Some (h, w) | None => None end;
                 a_ul := ul; a_center := center; a_resolution := resolution; a_radius := radius;
                 a_units := None |} in
-    Ok {| l_id := area_id; l_desc := description; l_proj := projection;
+    Ok {| l_id := area_id; l_desc := description; l_projid := proj_id; l_proj := projection;
           l_out := create_area_def OP (fun _ => None) (fun _ => None) fac geo cunits a |}.
 
   (* _parse_yaml_area_file on the merged dictionary: all areas in file order, or the named regions *)
